@@ -190,6 +190,8 @@ def run(ctx):
     K.check_core_forwarding(ctx, P, rule="E5.forward", methods=("verify", "multi_sig_verify"))
     # the accumulated signature is checked under the tag its parts were signed under (per scheme trait)
     K.check_core_table(ctx, P, methods=("sign", "verify", "multi_sig_verify"))
+    # ... and every list of two or more is admitted as far as its length goes (own rejections by count, folded over 0..300)
+    F.check_len_rejections(ctx, "E4.len-range", P, "<MultiSignature<C> as TryFrom<&[Signature<C>]>>::try_from", "sigs", lambda L: L >= 2, list(range(0, 301)), "number of signatures")
     # "accumulation refuses ... fewer than two inputs": refuses, does not abort - abort census over the accumulation and
     # verification entry points (both profiles)
     from . import aborts as A_
